@@ -374,16 +374,32 @@ class Formatter:
 
         :return: The parsed elements
         """
-        escaped_fmt = re.escape(fmt)
-
-        tokens = self._FROM_FORMAT_RE.findall(escaped_fmt)
-        if not tokens:
-            raise ValueError("The given time string does not match the given format")
-
         if not locale:
             locale = pendulum.get_locale()
 
         loaded_locale: Locale = Locale.load(locale)
+
+        # The format is split exactly like format() splits it, so that text
+        # inside [...] is matched verbatim and never mistaken for tokens
+        pattern = ""
+        position = 0
+        has_tokens = False
+        for m in self._FORMAT_RE.finditer(fmt):
+            pattern += re.escape(fmt[position : m.start()])
+            position = m.end()
+
+            if m.group(1) is not None:
+                pattern += re.escape(m.group(1))
+            elif m.group(2) is not None:
+                pattern += re.escape(m.group(2))
+            else:
+                has_tokens = True
+                pattern += self._replace_tokens(m.group(3), loaded_locale)
+
+        pattern += re.escape(fmt[position:])
+
+        if not has_tokens:
+            raise ValueError("The given time string does not match the given format")
 
         parsed = {
             "year": None,
@@ -400,10 +416,6 @@ class Formatter:
             "meridiem": None,
             "timestamp": None,
         }
-
-        pattern = self._FROM_FORMAT_RE.sub(
-            lambda m: self._replace_tokens(m.group(0), loaded_locale), escaped_fmt
-        )
 
         m = re.search("^" + pattern + "$", time)
         if not m:
